@@ -158,6 +158,28 @@ impl<T> Default for DenseVecStorage<T> {
     }
 }
 
+#[cfg(specs_verif)]
+impl<T> DenseVecStorage<T> {
+    /// Verification hook: `(entity_id, data_id restricted to the entities in
+    /// entity_id)`, i.e. the hidden redirection tables of the dense storage.
+    pub fn verif_tables(&self) -> (Vec<Index>, Vec<(Index, Index)>) {
+        let fwd = self
+            .entity_id
+            .iter()
+            .map(|&e| {
+                // SAFETY: every index in `entity_id` was written by `insert`.
+                (e, unsafe { self.data_id[e as usize].assume_init() })
+            })
+            .collect();
+        (self.entity_id.clone(), fwd)
+    }
+
+    /// Verification hook: lengths of (`data`, `entity_id`, `data_id`).
+    pub fn verif_lens(&self) -> (usize, usize, usize) {
+        (self.data.len(), self.entity_id.len(), self.data_id.len())
+    }
+}
+
 impl<T> SliceAccess<T> for DenseVecStorage<T> {
     type Element = T;
 
